@@ -47,12 +47,13 @@ Record chan := mkChan {
 Record topic := mkTopic {
   t_id : N; t_eph : bool; t_paused : bool;
   t_queue : list msg;
+  t_mem : N;                  (* how many of the queued messages sit in the memory queue *)
   t_chans : list chan;
   t_msgcount : N; t_bytes : N;
   t_lost : list N
 }.
 #[export] Instance eta_topic : Settable _ :=
-  settable! mkTopic <t_id; t_eph; t_paused; t_queue; t_chans; t_msgcount; t_bytes; t_lost>.
+  settable! mkTopic <t_id; t_eph; t_paused; t_queue; t_mem; t_chans; t_msgcount; t_bytes; t_lost>.
 
 (* client states as in nsqd/client_v2.go *)
 Definition st_init : N := 0.
@@ -96,7 +97,7 @@ Definition upd_client (s : state) (k : N) (f : client -> client) : state :=
 Definition new_chan (c : N) (eph : bool) : chan :=
   mkChan c eph false [] [] [] [] 0 0 0 [] [] [].
 Definition new_topic (t : N) (eph : bool) : topic :=
-  mkTopic t eph false [] [] 0 0 [].
+  mkTopic t eph false [] 0 [] 0 0 [].
 Definition new_client (k : N) (timeout : Z) : client :=
   mkClient k st_init true 0%Z 0%Z None timeout 0 0 0.
 
@@ -120,15 +121,21 @@ Definition pump (cfg : config) (now : Z) (tp : topic) : topic :=
        | [] => tp
        | _ =>
            tp <| t_chans ::= map (fun ch => fold_left (fun ch m => chan_receive cfg now m ch) (t_queue tp) ch) |>
-              <| t_queue := [] |>
+              <| t_queue := [] |> <| t_mem := 0 |>
        end.
 
-(* Topic.put while the pump cannot run (paused / no channel): an ephemeral topic has
-   only its bounded memory queue *)
+(* Topic.put.  While the pump can run (un-paused, at least one channel) a message is
+   handed over through the memory queue.  While it cannot, messages pile up: in the
+   memory queue while there is room, then in the backend, where a deferred message
+   loses its timer (and an ephemeral topic, which has no backend, drops). *)
+Definition pump_runs (tp : topic) : bool :=
+  negb (t_paused tp) && match t_chans tp with [] => false | _ => true end.
+
 Definition topic_put (cfg : config) (m : msg) (tp : topic) : topic :=
-  if t_eph tp && (memcap cfg <=? N.of_nat (length (t_queue tp)))
-  then tp <| t_lost ::= cons (m_id m) |>
-  else tp <| t_queue ::= fun q => q ++ [m] |>.
+  if pump_runs tp then tp <| t_queue ::= fun q => q ++ [m] |>
+  else if t_mem tp <? memcap cfg then tp <| t_queue ::= fun q => q ++ [m] |> <| t_mem ::= N.succ |>
+  else if t_eph tp then tp <| t_lost ::= cons (m_id m) |>
+  else tp <| t_queue ::= fun q => q ++ [mkMsg (m_id m) (m_att m) 0%Z] |>.
 
 Fixpoint remove_msg (id : N) (q : list msg) : option (msg * list msg) :=
   match q with
@@ -401,7 +408,7 @@ Definition step (cfg : config) (s : state) (o : op) : state * resp :=
       end
   | OEmptyTopic t =>
       match find_topic s t with
-      | Some _ => (upd_topic s t (fun tp => tp <| t_queue := [] |>), ROk)
+      | Some _ => (upd_topic s t (fun tp => tp <| t_queue := [] |> <| t_mem := 0 |>), ROk)
       | None => (s, RNotFound)
       end
   | ODeleteChan t c =>
